@@ -434,3 +434,22 @@ def held(obj, key=None, listed=True):
 
 def dumps(x):
     return json.dumps(x, sort_keys=True)
+
+
+def pipeline(ctx, target, theorems, extra_trusted, cases, binary, oracle, model_term_fn, imports, **kw):
+    """ctx.pipeline, re-run when another property's check rebuilt gen/Consts.vo while our case files were
+    being evaluated (coqc then reports 'inconsistent assumptions over library V.gen.Consts'): that is a
+    race between concurrent checks on the shared Coq tree, not a fact about the code under check."""
+    for attempt in range(4):
+        n_tb, n_iv = len(ctx.tie_breaks), len(ctx.impl_viol)
+        ev, tv = ctx.cov["evaluations"], ctx.cov["traces_validated_against_impl"]
+        dist = dict(ctx.cov["distribution"])
+        ctx.pipeline(cases, binary, oracle, model_term_fn, imports, **kw)
+        race = [t for t in ctx.tie_breaks[n_tb:] if t[0] == "model-eval" and "inconsistent assumptions" in str(t[2])]
+        if not race or attempt == 3:
+            return
+        ctx.log("Coq tree was rebuilt by a concurrent check during model evaluation; rebuilding and evaluating again")
+        del ctx.tie_breaks[n_tb:]
+        del ctx.impl_viol[n_iv:]
+        ctx.cov["evaluations"], ctx.cov["traces_validated_against_impl"], ctx.cov["distribution"] = ev, tv, dist
+        ctx.prove(target, theorems, extra_trusted=extra_trusted)
